@@ -5,6 +5,7 @@ requests   fvo <term>                 -> `<hexname> <symty>` items separated by 
            atoms <term>               -> atoms <term> ; <term> …  |  theory  |  err
            qf <term>                  -> true | false
            types <term>               -> `<ty>` items separated by " ; "  (expandTypes of the walk, model order)
+           ctypes <term>              -> the same with custom_only=True (declared sorts only)
            typesw <term>              -> the walk result before expansion
            expand <k> <ty>*k          -> expand_types of the list, exact order
            size <m> <term>            -> <nat>      (m = 0 … 5 as in SizeOracle)
@@ -51,6 +52,7 @@ def main : IO Unit := loop fun line =>
       | .atoms l => return "atoms " ++ joinItems (l.map encTerm)) toks
   | some "qf" => handle (do let t ← term; return toString (isQFO t)) toks
   | some "types" => handle (do let t ← term; return joinItems ((typesO t).map encTy)) toks
+  | some "ctypes" => handle (do let t ← term; return joinItems ((typesCustomO t).map encTy)) toks
   | some "typesw" => handle (do let t ← term; return joinItems ((typesWalk t).map encTy)) toks
   | some "expand" => handle (do
       let k ← nat
